@@ -6,7 +6,7 @@ open Aqua
 
 /-- `infiltration <cells> pond infl irr appEff bunds zBund deepPerc0 runoff0 gs`
 → `th[n] pond deepPerc runoffTot infl flux[n]` followed by the ghosts
-`inflIn runoffIni toStore0 backup lost i<branch>` (or `E:unbound` / `E:assert` / `E:index`). -/
+`inflIn runoffIni toStore0 backup lost i<branch>` (or `E:assert` / `E:index`; `E:unbound` only for bunds with `zBund = NaN`). -/
 def hInfiltration : Handler := fun ctx => do
   let cells ← rdCells ctx
   let pond ← rdF
